@@ -103,8 +103,10 @@ fn collect_type_dec(
     td.info
         .slice(tokens)
         .iter()
-        .filter_map(|token| {
-            let semantic_token = if matches!(&td.name, Some(name) if name.to_range() == token.range)
+        .enumerate()
+        .filter_map(|(index, token)| {
+            // the identifier is the last token of the name's token range
+            let semantic_token = if matches!(&td.name, Some(name) if name.to_range().end == index + 1)
             {
                 Some(create_semantic_token(
                     token,
@@ -146,8 +148,10 @@ fn collect_proc_dec(
     pd.info
         .slice(tokens)
         .iter()
-        .filter_map(|token| {
-            let semantic_token = if matches!(&pd.name, Some(name) if name.to_range() == token.range)
+        .enumerate()
+        .filter_map(|(index, token)| {
+            // the identifier is the last token of the name's token range
+            let semantic_token = if matches!(&pd.name, Some(name) if name.to_range().end == index + 1)
             {
                 Some(create_semantic_token(
                     token,
@@ -173,7 +177,11 @@ fn collect_proc_dec(
                         SemanticTokenModifier::None.into(),
                     ),
                     Entry::Variable(variable) => {
-                        let modifier = if variable.name.to_range() == token.range {
+                        // the name range is relative to the variable declaration,
+                        // whose range is relative to the procedure
+                        let modifier = if variable.range.start + variable.name.to_range().end
+                            == index + 1
+                        {
                             SemanticTokenModifier::Declaration
                         } else {
                             SemanticTokenModifier::None
@@ -187,7 +195,9 @@ fn collect_proc_dec(
                         )
                     }
                     Entry::Parameter(param) => {
-                        let modifier = if param.name.to_range() == token.range {
+                        let modifier = if param.range.start + param.name.to_range().end
+                            == index + 1
+                        {
                             SemanticTokenModifier::Declaration
                         } else {
                             SemanticTokenModifier::None
